@@ -205,6 +205,18 @@ pub fn shard_run(tier: &str, seed: u64, replay_case: Option<usize>, shard: Shard
             }
         }
         let h = generate(Rng::new(seed).fork(0xC05 + hi as u64).next_u64(), &prof);
+        // a quarter of the histories run on a file system without shared-memory support: WAL
+        // cannot be enabled and the database stays in rollback-journal mode, where a commit can be
+        // refused with BUSY (a reader holds a shared lock)
+        let no_wal = vfs_ok && hi % 4 == 3;
+        crate::vfs::set_no_shm(no_wal);
+        struct ShmReset;
+        impl Drop for ShmReset {
+            fn drop(&mut self) {
+                crate::vfs::set_no_shm(false);
+            }
+        }
+        let _reset = ShmReset;
         for kind in [Kind::SQL_LIB, Kind::SQL_HTTP] {
             // the reference run: the history executed without faults, a directory image before each request
             let mut main = match Subject::new(kind, Config { snapshot_days: 14, snapshot_versions: 4 }) {
@@ -483,7 +495,7 @@ pub fn shard_run(tier: &str, seed: u64, replay_case: Option<usize>, shard: Shard
                 if vfs_ok {
                     use crate::vfs::{self, FaultKind, FaultSpec};
                     // learn how many operations of each kind the request performs
-                    let counts: Vec<(FaultKind, u64, Vec<i32>)> = {
+                    let counts: Vec<(FaultKind, u64, Vec<i32>, Vec<u64>)> = {
                         let s = match open_copy(img.path(), kind, &hook) {
                             Ok(s) => s,
                             Err(_) => continue,
@@ -496,18 +508,23 @@ pub fn shard_run(tier: &str, seed: u64, replay_case: Option<usize>, shard: Shard
                         let log = vfs::stop_recording();
                         let n = |k: &str| log.iter().filter(|e| e.kind() == k).count() as u64;
                         vec![
-                            (FaultKind::Write, n("write"), vec![778, 13]),
-                            (FaultKind::Sync, n("sync"), vec![1034]),
-                            (FaultKind::Truncate, n("truncate"), vec![1546]),
-                            (FaultKind::Open, n("open"), vec![14]),
-                            (FaultKind::Delete, n("delete"), vec![2570]),
-                            (FaultKind::Read, 12, vec![266]),
-                            (FaultKind::Lock, 6, vec![5, 3850]),
+                            (FaultKind::Write, n("write"), vec![778, 13], vec![1]),
+                            (FaultKind::Sync, n("sync"), vec![1034], vec![1]),
+                            (FaultKind::Truncate, n("truncate"), vec![1546], vec![1]),
+                            (FaultKind::Open, n("open"), vec![14], vec![1]),
+                            (FaultKind::Delete, n("delete"), vec![2570], vec![1]),
+                            (FaultKind::Read, 12, vec![266], vec![1]),
+                            // a lock that is refused once, and one that stays refused (longer than any retry)
+                            (FaultKind::Lock, if no_wal { 10 } else { 6 }, vec![5, 3850], vec![1, 1000]),
                         ]
                     };
-                    for (fk, n, codes) in counts {
+                    for (fk, n, codes, repeats) in counts {
                         for nth in 0..n {
                             for code in &codes {
+                              for repeat in &repeats {
+                                if *repeat > 1 && *code != 5 {
+                                    continue;
+                                }
                                 vcase += 1;
                                 let stride = if thorough { 1 } else { 5 };
                                 if vcase % stride != 0 {
@@ -519,7 +536,7 @@ pub fn shard_run(tier: &str, seed: u64, replay_case: Option<usize>, shard: Shard
                                 };
                                 hook.reset(-1, false);
                                 vfs::start_recording();
-                                vfs::arm(Some(FaultSpec { kind: fk, nth, code: *code }));
+                                vfs::arm(Some(FaultSpec { kind: fk, nth, code: *code, repeat: *repeat }));
                                 let r = s.exec(cid, &req);
                                 let fired = vfs::fired();
                                 vfs::arm(None);
@@ -534,7 +551,7 @@ pub fn shard_run(tier: &str, seed: u64, replay_case: Option<usize>, shard: Shard
                                 let eq_pre = normalized(&after_state) == normalized(&pre);
                                 let eq_post = mask(&normalized(&after_state), &known_ids) == mask(&normalized(&post), &known_ids);
                                 let success = !matches!(r, Resp::Error(_));
-                                cov.hit(format!("vfs|{}|{}|{fk:?}|code{code}|{}|state={}", kind.name(), req.name(), if success { "success" } else { "error" }, if eq_pre && eq_post { "unchanged" } else if eq_pre { "pre" } else if eq_post { "post" } else { "OTHER" }));
+                                cov.hit(format!("vfs{}|{}|{}|{fk:?}|code{code}{}|{}|state={}", if no_wal { "-rollback-journal" } else { "" }, kind.name(), req.name(), if *repeat > 1 { "-persistent" } else { "" }, if success { "success" } else { "error" }, if eq_pre && eq_post { "unchanged" } else if eq_pre { "pre" } else if eq_post { "post" } else { "OTHER" }));
                                 let ctx = format!("[{}] {} (request #{oi} of history {hi}) with SQLite's {fk:?} operation #{nth} failing with code {code} ({})", kind.name(), req.name(), fired.as_ref().map(|f| f.1.clone()).unwrap_or_default());
                                 let mut bad: Option<String> = None;
                                 if let Resp::Error(e) = &r {
@@ -557,11 +574,15 @@ pub fn shard_run(tier: &str, seed: u64, replay_case: Option<usize>, shard: Shard
                                         }
                                     }
                                 }
+                                if let (Some(m), true) = (&mut bad, no_wal) {
+                                    m.push_str(" [database in rollback-journal mode: the file system offers no shared memory, WAL could not be enabled]");
+                                }
                                 if let Some(m) = bad {
                                     out.found.push(Found { property: "C05".into(), signature: format!("C05:vfs {}", m.split(": ").last().unwrap_or("").split_whitespace().take(8).collect::<Vec<_>>().join(" ")), msg: m, replay: json!({"origin": "c05-vfs", "case": hi * 100_000 + oi * 1000, "fault": format!("{fk:?} #{nth} code {code}")}) });
                                     out.cov = cov;
                                     return out;
                                 }
+                              }
                             }
                         }
                     }
@@ -581,13 +602,13 @@ pub fn finalize(out: ShardOut, is_replay: bool) -> CheckResult {
     let coverage = json!({
         "evaluations": cov.evaluations,
         "distinct_nontrivial": cov.situations.len(),
-        "rule": "for every request of generated histories on the SQLite backend (library and HTTP handlers) the sequence of storage calls (begin, reads, writes, commit) is learned on a copy of the data directory; then for every call index and both modes (fail before taking effect / fail after taking effect) the directory image is restored and the request re-run with that call failing. Oracle: the client gets an error (never a success, never a panic); all SQL rows equal the pre-state (or the post-state when the failing call was commit-after-effect; an empty client record is identified with an absent client); begun == released transactions at return; follow-up requests succeed; thorough adds a second fault in the follow-up. Layer 2: the same requests are re-run with the n-th xWrite / xSync / xTruncate / xOpen / xDelete / xRead / xLock of SQLite itself failing (IOERR_*, FULL, CANTOPEN, BUSY) through a VFS shim, so that the error travels through SQLite's and rusqlite's real error paths; oracle: success only with the post-state, failure only with the pre- or post-state, later requests served. distinct_nontrivial = distinct (subject, request, failing call, mode, outcome).",
+        "rule": "for every request of generated histories on the SQLite backend (library and HTTP handlers) the sequence of storage calls (begin, reads, writes, commit) is learned on a copy of the data directory; then for every call index and both modes (fail before taking effect / fail after taking effect) the directory image is restored and the request re-run with that call failing. Oracle: the client gets an error (never a success, never a panic); all SQL rows equal the pre-state (or the post-state when the failing call was commit-after-effect; an empty client record is identified with an absent client); begun == released transactions at return; follow-up requests succeed; thorough adds a second fault in the follow-up. Layer 2: the same requests are re-run with the n-th xWrite / xSync / xTruncate / xOpen / xDelete / xRead / xLock of SQLite itself failing (IOERR_*, FULL, CANTOPEN, BUSY) through a VFS shim, so that the error travels through SQLite's and rusqlite's real error paths (a lock refusal also as a persistent condition; a quarter of the histories on a shim without shared-memory support, where WAL cannot be enabled, the database stays in rollback-journal mode and a commit itself can be refused with BUSY); oracle: success only with the post-state, failure only with the pre- or post-state, later requests served. distinct_nontrivial = distinct (subject, request, failing call, mode, outcome).",
         "samples": cov.samples,
         "injections": out.executed,
         "counters": cov.counters,
         "situations_top": top.iter().take(40).map(|(k, v)| json!({"situation": k, "n": v})).collect::<Vec<_>>(),
     });
-    let required = ["vfs|", "|Write|code778|error|", "|Sync|code1034|", "AddVersion|Commit|After", "AddVersion|Commit|Before", "AddVersion|AddVersion|", "AddSnapshot|SetSnapshot|", "AddSnapshot|GetVersion|", "GetChildVersion|GetVersionByParent|", "AddVersion|NewClient|", "GetSnapshot|GetSnapshotData|", "|Begin|"];
+    let required = ["vfs|", "vfs-rollback-journal|", "|Lock|code5-persistent|", "|Write|code778|error|", "|Sync|code1034|", "AddVersion|Commit|After", "AddVersion|Commit|Before", "AddVersion|AddVersion|", "AddSnapshot|SetSnapshot|", "AddSnapshot|GetVersion|", "GetChildVersion|GetVersionByParent|", "AddVersion|NewClient|", "GetSnapshot|GetSnapshotData|", "|Begin|"];
     let verdict = if !out.found.is_empty() {
         Verdict::Violated(out.found)
     } else if !out.errors.is_empty() {
